@@ -324,6 +324,16 @@ macro_rules! impl_cache {
 
                 // cost is eventually updated. The expiration must also be immediately updated
                 // to prevent items from being prematurely removed from the map.
+                // An entry whose TTL has elapsed is absent to every lookup, even before the sweep
+                // reclaims it: a conditional write must not bring it back to life.
+                if only_update {
+                    if let Some(t) = self.store.expiration(&index) {
+                        if !t.is_zero() && t.is_expired() {
+                            return Ok(None);
+                        }
+                    }
+                }
+
                 let external_cost = if cost == 0 { self.coster.cost(&val) } else { 0 };
                 match self.store.try_update(index, val, conflict, expiration)? {
                     // The validator vetoed the replacement, or the slot belongs to a colliding key
@@ -652,6 +662,16 @@ macro_rules! impl_async_cache {
 
                 // cost is eventually updated. The expiration must also be immediately updated
                 // to prevent items from being prematurely removed from the map.
+                // An entry whose TTL has elapsed is absent to every lookup, even before the sweep
+                // reclaims it: a conditional write must not bring it back to life.
+                if only_update {
+                    if let Some(t) = self.store.expiration(&index) {
+                        if !t.is_zero() && t.is_expired() {
+                            return Ok(None);
+                        }
+                    }
+                }
+
                 let external_cost = if cost == 0 { self.coster.cost(&val) } else { 0 };
                 match self.store.try_update(index, val, conflict, expiration)? {
                     // The validator vetoed the replacement, or the slot belongs to a colliding key
